@@ -1,27 +1,39 @@
 (* The concurrent clause of C12 on the micro-step machine of model/IndexConc.v:
-   "a key that is continuously present is always found" -- refuted for file-backed values by a concrete
-   schedule, proved for all schedules in the strongest true form: a lookup can only fail if a writer's
-   file removal ran between the lookup's SELECT and its open (never for inline values). *)
-From DC Require Import DCPrelude IndexConc.
+   "a key that is continuously present is always found".
+   For the reader of the code as it is (a lookup whose file is gone looks the row up again) this is a theorem for
+   every schedule, any number of replacing writers and any mix of inline and file-backed values: the lookup never
+   reports "absent", and what it returns is the initial value or a value some writer wrote.
+   For the reader the code had before that repair (`old_reader`: a missing file was reported as KeyError) the
+   statement is refuted by a concrete schedule, and holds in the restricted form that was the strongest true one then:
+   such a lookup fails only if a writer's file removal ran between its SELECT and its open (never for inline values). *)
+From DC Require Import DCPrelude Gen_Sql IndexConc.
 
 (* ------------------------------------------------------------------------------------------------ *)
-(* the full statement is false                                                                       *)
+(* the old reader: the full statement is false                                                       *)
 
 (* reader SELECT; writer store, BEGIN, UPDATE, COMMIT, remove; reader open *)
 Definition witness_schedule : list nat := [0; 1; 1; 1; 1; 1; 0]%nat.
 Definition witness_init : cfg := init true 7 [(8, true)].
 
-Lemma continuous_presence_refuted :
+Lemma continuous_presence_old_reader_refuted :
   exists file0 v0 ws sched,
-    forallb present (trace (init file0 v0 ws) sched) = true /\
-    lookup_result (run (init file0 v0 ws) sched) = Some None.
+    forallb present (trace old_reader (init file0 v0 ws) sched) = true /\
+    lookup_result (run old_reader (init file0 v0 ws) sched) = Some None.
 Proof. exists true, 7, [(8, true)], witness_schedule. vm_compute. split; reflexivity. Qed.
 
 (* the same schedule shifted by one step is benign: the lookup returns the old value *)
 Example benign_schedule :
-  lookup_result (run witness_init [0; 0; 1; 1; 1; 1; 1]%nat) = Some (Some 7) /\
-  lookup_result (run witness_init [1; 1; 1; 1; 1; 0; 0]%nat) = Some (Some 8).
+  lookup_result (run old_reader witness_init [0; 0; 1; 1; 1; 1; 1]%nat) = Some (Some 7) /\
+  lookup_result (run old_reader witness_init [1; 1; 1; 1; 1; 0; 0]%nat) = Some (Some 8).
 Proof. vm_compute. split; reflexivity. Qed.
+
+(* the reader of the code as it is, under the schedule that defeated the old one: after the failed open it is still in
+   progress (it has not reported anything); its next two steps (SELECT again, open the new file) return the NEW value *)
+Example witness_schedule_repaired :
+  lookup_result (run repaired witness_init witness_schedule) = None /\
+  reader (run repaired witness_init witness_schedule) = RAgain (-1) /\
+  lookup_result (run repaired witness_init (witness_schedule ++ [0; 0]%nat)) = Some (Some 8).
+Proof. vm_compute. repeat split; reflexivity. Qed.
 
 (* ------------------------------------------------------------------------------------------------ *)
 (* helpers                                                                                           *)
@@ -87,8 +99,8 @@ Record Inv (c : cfg) : Prop := {
                                     old = committed c;
   inv_committed_old : forall i w n, nth_error (writers c) i = Some w -> w_pc w = WCommitted (Some (InFile n)) ->
                                     committed c <> Some (InFile n) /\ settled (writers c) n;
-  inv_reader : forall n, reader c = RSelected n -> removed_during_lookup c = false ->
-                         file_get n (files c) <> None
+  inv_reader : forall n mo, reader c = RSelected n mo -> removed_during_lookup c = false ->
+                            file_get n (files c) <> None
 }.
 
 Lemma Inv_init file0 v0 ws : Inv (init file0 v0 ws).
@@ -105,14 +117,23 @@ Proof.
   - discriminate.
 Qed.
 
-Lemma Inv_reader_step c : Inv c -> Inv (reader_step c).
+Lemma Inv_reader_select c mo : Inv c -> Inv (reader_select c mo).
 Proof.
-  intros [I1 I2 I3 I4 I5 I6 I7]. unfold reader_step.
+  intros [I1 I2 I3 I4 I5 I6 I7]. unfold reader_select.
+  destruct (committed c) as [[v|n]|] eqn:Ec; constructor; cbn; rewrite ?Ec; auto; try discriminate.
+  intros n0 mo0 H _. inversion H; subst. apply I2. reflexivity.
+Qed.
+
+Lemma Inv_reader_step again c : Inv c -> Inv (reader_step again c).
+Proof.
+  intros I. unfold reader_step.
   destruct (reader c) eqn:Er.
-  - destruct (committed c) as [[v|n]|] eqn:Ec; constructor; cbn; auto; try discriminate.
-    intros n0 H _. inversion H; subst. apply I2. reflexivity.
-  - constructor; cbn; auto. discriminate.
-  - constructor; auto. intros n H. rewrite Er in H. discriminate.
+  - apply Inv_reader_select, I.
+  - destruct I as [I1 I2 I3 I4 I5 I6 I7].
+    destruct (file_get name (files c)); [|destruct (again && negb (same_missing missing name))];
+      constructor; cbn; auto; discriminate.
+  - apply Inv_reader_select, I.
+  - exact I.
 Qed.
 
 (* what a looked-up writer of the updated list is *)
@@ -144,6 +165,7 @@ Proof.
     + intros j wj n H Hp. upd_cases H i j.
       * rewrite Ew in H. inversion H; subst. discriminate.
       * destruct (I6 j wj n H Hp). auto.
+    + intros n mo Hr Hg. apply F. eauto.
   - (* BEGIN *)
     destruct (lock c) as [h|] eqn:El; [constructor; auto; rewrite ?El; auto|].
     assert (S : forall n, settled (writers c) n -> settled (upd i (set_pc w WLocked) (writers c)) n).
@@ -231,7 +253,7 @@ Proof.
       * intros j wj old' H Hp. upd_cases H i j; [rewrite Ew in H; inversion H; subst; discriminate|eauto].
       * intros j wj n H Hp. upd_cases H i j; [rewrite Ew in H; inversion H; subst; discriminate|].
         destruct (I6 j wj n H Hp). auto.
-      * intros n Hr Hg. apply orb_false_iff in Hg as [Hg Hs]. rewrite Hr in Hs. discriminate.
+      * intros n mo Hr Hg. apply orb_false_iff in Hg as [Hg Hs]. rewrite Hr in Hs. discriminate.
     + constructor; cbn [committed lock files reader writers removed_during_lookup]; auto.
       * intros n H. destruct (I2 n H). auto.
       * intros j wj H Hf Hp. upd_cases H i j; [rewrite Ew in H; inversion H; subst; discriminate|eauto].
@@ -242,23 +264,220 @@ Proof.
   - constructor; auto.
 Qed.
 
-Lemma Inv_run sched : forall c, Inv c -> Inv (run c sched).
+Lemma Inv_step again c cid : Inv c -> Inv (step again c cid).
+Proof. intros I. destruct cid; [apply Inv_reader_step|apply Inv_writer_step]; exact I. Qed.
+
+Lemma Inv_run again sched : forall c, Inv c -> Inv (run again c sched).
 Proof.
   unfold run. induction sched as [|cid sched IH]; intros c I; cbn [fold_left]; [exact I|].
-  apply IH. destruct cid; [apply Inv_reader_step|apply Inv_writer_step]; exact I.
+  apply IH, Inv_step, I.
 Qed.
+
+Lemma present_trace again : forall s c0, Inv c0 -> forallb present (trace again c0 s) = true.
+Proof.
+  induction s as [|cid s IH]; intros c0 I0; cbn [trace forallb].
+  - destruct (inv_present c0 I0) as [r E]. unfold present. rewrite E. reflexivity.
+  - destruct (inv_present c0 I0) as [r E]. unfold present at 1. rewrite E. cbn.
+    apply IH, Inv_step, I0.
+Qed.
+
+(* ------------------------------------------------------------------------------------------------ *)
+(* the reader of the code as it is                                                                   *)
+
+(* the file a lookup could not open is gone for good: its name belongs to the initial file or to a writer that has
+   committed (such names are never published again), and the committed row names another file; the file a lookup is
+   about to open is therefore not the one that was missing before *)
+Definition missing_of (r : rpc) : option Z :=
+  match r with RSelected _ mo => mo | RAgain m => Some m | _ => None end.
+
+Record RInv (c : cfg) : Prop := {
+  rinv_missing : forall m, missing_of (reader c) = Some m -> settled (writers c) m /\ committed c <> Some (InFile m);
+  rinv_selected : forall n mo, reader c = RSelected n mo -> settled (writers c) n /\ mo <> Some n
+}.
+
+Lemma RInv_init file0 v0 ws : RInv (init file0 v0 ws).
+Proof. constructor; cbn; discriminate. Qed.
+
+Lemma RInv_reader_select c mo :
+  Inv c -> (forall m, mo = Some m -> settled (writers c) m /\ committed c <> Some (InFile m)) -> RInv (reader_select c mo).
+Proof.
+  intros I Hm. unfold reader_select.
+  destruct (committed c) as [[v|n]|] eqn:Ec; constructor; cbn; try discriminate.
+  - intros m E. rewrite Ec. apply Hm, E.
+  - intros n0 mo0 E. inversion E; subst. split; [apply (inv_committed_file c I), Ec|].
+    intros X. destruct (Hm n0 X) as [_ N]. apply N. reflexivity.
+Qed.
+
+Lemma RInv_reader_step again c : Inv c -> RInv c -> RInv (reader_step again c).
+Proof.
+  intros I R. unfold reader_step. destruct (reader c) eqn:Er; [| | |exact R]; destruct R as [R1 R2]; rewrite Er in *.
+  - apply RInv_reader_select; [exact I|discriminate].
+  - destruct (file_get name (files c)) eqn:Ef; [constructor; cbn; discriminate|].
+    destruct (again && negb (same_missing missing name)); constructor; cbn; try discriminate.
+    intros m E. inversion E; subst. destruct (R2 m missing eq_refl) as [Sm _]. split; [exact Sm|].
+    intros Ec. destruct (inv_committed_file c I m Ec) as [F _]. contradiction.
+  - apply RInv_reader_select; [exact I|]. intros m E. inversion E; subst. apply R1. reflexivity.
+Qed.
+
+Lemma RInv_writer_step i c : Inv c -> RInv c -> RInv (writer_step i c).
+Proof.
+  intros I [R1 R2]. unfold writer_step.
+  destruct (nth_error (writers c) i) as [w|] eqn:Ew; [|constructor; auto].
+  assert (K : forall p, (retired_pc (w_pc w) = true -> retired_pc p = true) ->
+              forall com, (forall m, missing_of (reader c) = Some m -> com <> Some (InFile m)) ->
+              forall lk fs g,
+              RInv {| committed := com; lock := lk; files := fs; reader := reader c;
+                      writers := upd i (set_pc w p) (writers c); removed_during_lookup := g |}).
+  { intros p Hp com Hc lk fs g. constructor; cbn.
+    - intros m E. split; [apply settled_upd; auto; apply R1, E|apply Hc, E].
+    - intros n mo E. destruct (R2 n mo E) as [Sn D]. split; [apply settled_upd; auto|exact D]. }
+  assert (C0 : forall m, missing_of (reader c) = Some m -> committed c <> Some (InFile m)) by (intros m E; apply R1, E).
+  destruct (w_pc w) eqn:Epc.
+  - apply K; [discriminate|exact C0].
+  - destruct (lock c); [constructor; auto|]. apply K; [discriminate|exact C0].
+  - apply K; [discriminate|exact C0].
+  - apply K; [auto|]. intros m E X. unfold new_rep in X. destruct (w_file w); [|discriminate]. inversion X as [Y].
+    destruct (R1 m E) as [Sm _]. symmetry in Y. revert Y. eapply settled_not_unretired; eauto. rewrite Epc. reflexivity.
+  - destruct old as [[v|m]|]; (apply K; [auto|exact C0]).
+  - constructor; auto.
+Qed.
+
+Lemma RInv_step again c cid : Inv c -> RInv c -> RInv (step again c cid).
+Proof. intros I R. destruct cid; [apply RInv_reader_step|apply RInv_writer_step]; assumption. Qed.
+
+(* the repaired lookup never reports "absent" *)
+Definition Never_absent (c : cfg) : Prop := reader c <> RDone None.
+
+Lemma never_absent_step c cid : Inv c -> RInv c -> Never_absent c -> Never_absent (step repaired c cid).
+Proof.
+  intros I R N. destruct cid as [|i]; cbn [step].
+  - unfold Never_absent, reader_step, reader_select. destruct (reader c) eqn:Er.
+    + destruct (inv_present c I) as [r Ec]. rewrite Ec. destruct r; cbn; discriminate.
+    + destruct (file_get name (files c)); [cbn; discriminate|].
+      destruct (rinv_selected c R name missing Er) as [_ D].
+      assert (Sm : same_missing missing name = false).
+      { destruct missing as [m|]; [|reflexivity]. cbn. apply Z.eqb_neq. intros ->. apply D. reflexivity. }
+      rewrite Sm. change repaired with true. cbn. discriminate.
+    + destruct (inv_present c I) as [r Ec]. rewrite Ec. destruct r; cbn; discriminate.
+    + exact N.
+  - unfold Never_absent, writer_step in *.
+    destruct (nth_error (writers c) i) as [w|]; [|exact N].
+    destruct (w_pc w); cbn; auto.
+    + destruct (lock c); cbn; auto.
+    + destruct old as [[v|m]|]; cbn; auto.
+Qed.
+
+Lemma never_absent_run sched : forall c, Inv c -> RInv c -> Never_absent c -> Never_absent (run repaired c sched).
+Proof.
+  unfold run. induction sched as [|cid sched IH]; intros c I R N; cbn [fold_left]; [exact N|].
+  apply IH; [apply Inv_step, I|apply RInv_step; assumption|apply never_absent_step; assumption].
+Qed.
+
+(* what a lookup returns is the initial value or a value some writer wrote (never a partial or mixed one) *)
+Record Vals (V : list Z) (c : cfg) : Prop := {
+  vals_files : forall n v, file_get n (files c) = Some v -> In v V;
+  vals_row : forall v, committed c = Some (Inline v) -> In v V;
+  vals_writers : forall w, In w (writers c) -> In (w_val w) V;
+  vals_result : forall v, reader c = RDone (Some v) -> In v V
+}.
+
+Lemma file_get_remove_some n m fs v : file_get n (file_remove m fs) = Some v -> file_get n fs = Some v.
+Proof.
+  unfold file_remove. induction fs as [|[k x] fs IH]; cbn; [discriminate|].
+  destruct (Z.eqb_spec k m) as [->|E]; cbn.
+  - intros H. destruct (Z.eqb_spec n m) as [->|D]; [|auto].
+    exfalso. clear IH. induction fs as [|[k y] fs IH]; cbn in H; [discriminate|].
+    destruct (Z.eqb_spec k m) as [->|E]; cbn in H; [auto|]. destruct (Z.eqb_spec m k); [congruence|auto].
+  - destruct (n =? k); auto.
+Qed.
+
+Lemma in_upd {A} (l : list A) : forall i x y, In y (upd i x l) -> y = x \/ In y l.
+Proof.
+  induction l as [|z l IH]; intros [|i] x y; cbn; auto.
+  - intros [<-|H]; auto.
+  - intros [<-|H]; auto. destruct (IH i x y H); auto.
+Qed.
+
+Lemma Vals_init file0 v0 ws : Vals (v0 :: map fst ws) (init file0 v0 ws).
+Proof.
+  constructor; cbn [init files committed writers reader].
+  - intros n v. destruct file0; cbn; [|discriminate]. destruct (n =? -1); [|discriminate]. intros H; inversion H; auto.
+  - intros v. destruct file0; [discriminate|]. intros H; inversion H; subst. left; reflexivity.
+  - intros w H. apply in_map_iff in H as [p [<- Hp]]. cbn. right. apply in_map, Hp.
+  - discriminate.
+Qed.
+
+Lemma Vals_step V again c cid : Vals V c -> Vals V (step again c cid).
+Proof.
+  intros HV. pose proof HV as [V1 V2 V3 V4]. destruct cid as [|i]; cbn [step].
+  - unfold reader_step, reader_select. destruct (reader c) eqn:Er.
+    + destruct (committed c) as [[v|n]|] eqn:Ec; constructor; cbn; rewrite ?Ec; auto; try discriminate.
+      intros v' H. inversion H; subst. auto.
+    + destruct (file_get name (files c)) eqn:Ef; [|destruct (again && negb (same_missing missing name))];
+        constructor; cbn; auto; try discriminate.
+      intros v' H. inversion H; subst. eauto.
+    + destruct (committed c) as [[v|n]|] eqn:Ec; constructor; cbn; rewrite ?Ec; auto; try discriminate.
+      intros v' H. inversion H; subst. auto.
+    + exact HV.
+  - unfold writer_step. destruct (nth_error (writers c) i) as [w|] eqn:Ew; [|constructor; auto].
+    assert (Vw : In (w_val w) V) by (apply V3; eapply nth_error_In; eauto).
+    assert (U : forall p w', In w' (upd i (set_pc w p) (writers c)) -> In (w_val w') V).
+    { intros p w' H. apply in_upd in H as [->|H]; auto. }
+    destruct (w_pc w) eqn:Epc.
+    + constructor; cbn; eauto. intros n v. destruct (w_file w); [|eauto]. cbn. destruct (n =? Z.of_nat i); [|eauto].
+      intros H; inversion H; subst; exact Vw.
+    + destruct (lock c); constructor; cbn; eauto.
+    + constructor; cbn; eauto.
+    + constructor; cbn; eauto. intros v. unfold new_rep. destruct (w_file w); [discriminate|]. intros H; inversion H; subst; exact Vw.
+    + destruct old as [[v|m]|]; constructor; cbn; eauto. intros n v H. apply file_get_remove_some in H. eauto.
+    + constructor; eauto.
+Qed.
+
+Lemma Vals_run V again sched : forall c, Vals V c -> Vals V (run again c sched).
+Proof.
+  unfold run. induction sched as [|cid sched IH]; intros c H; cbn [fold_left]; [exact H|]. apply IH, Vals_step, H.
+Qed.
+
+(* THE FULL STATEMENT, for every schedule, any number of replacing writers, any mix of inline and file-backed values:
+   the key is present in every committed state; the lookup never reports "absent" (it may still be in progress:
+   lookup_result = None); and when it has returned, the value is the initial one or one some writer wrote *)
+Theorem continuous_presence : forall file0 v0 ws sched,
+  let c := run repaired (init file0 v0 ws) sched in
+  forallb present (trace repaired (init file0 v0 ws) sched) = true /\
+  lookup_result c <> Some None /\
+  (forall v, lookup_result c = Some (Some v) -> In v (v0 :: map fst ws)).
+Proof.
+  intros file0 v0 ws sched c. split; [apply present_trace, Inv_init|]. split.
+  - unfold lookup_result. intros H.
+    apply (never_absent_run sched (init file0 v0 ws) (Inv_init _ _ _) (RInv_init _ _ _)); [cbn; discriminate|].
+    fold c. destruct (reader c) as [| | |r]; try discriminate. inversion H. reflexivity.
+  - intros v H. apply (vals_result _ c (Vals_run _ repaired sched _ (Vals_init file0 v0 ws))).
+    unfold lookup_result in H. destruct (reader c) as [| | |r]; try discriminate. inversion H. reflexivity.
+Qed.
+
+(* progress: once the writers are through, the lookup returns within three steps of its own (SELECT, failed open,
+   SELECT, open), so "in progress" is not a way of never answering; checked on the witness *)
+Example lookup_returns_after_the_writers :
+  forallb (fun n => match lookup_result (run repaired witness_init (repeat 0%nat n ++ repeat 1%nat 6 ++ repeat 0%nat 4)) with
+                    | Some (Some v) => (v =? 7) || (v =? 8) | _ => false end) (seq 0 4) = true.
+Proof. vm_compute. reflexivity. Qed.
+
+(* ------------------------------------------------------------------------------------------------ *)
+(* the old reader: the strongest true restriction                                                    *)
 
 (* a finished lookup that raised KeyError had a file removed between its two steps *)
 Definition Fail_explained (c : cfg) : Prop :=
   reader c = RDone None -> removed_during_lookup c = true.
 
-Lemma explained_step c cid : Inv c -> Fail_explained c -> Fail_explained (step c cid).
+Lemma explained_step c cid : Inv c -> Fail_explained c -> Fail_explained (step old_reader c cid).
 Proof.
   intros I E. destruct cid as [|i]; cbn [step].
-  - unfold reader_step, Fail_explained. destruct (reader c) eqn:Er.
+  - unfold reader_step, reader_select, Fail_explained. destruct (reader c) eqn:Er.
     + destruct (inv_present c I) as [r Ec]. rewrite Ec. destruct r; cbn; discriminate.
-    + cbn. intros H. inversion H as [G]. destruct (removed_during_lookup c) eqn:Eg; [reflexivity|].
+    + destruct (file_get name (files c)) eqn:Ef; [cbn; discriminate|].
+      cbn. intros _. destruct (removed_during_lookup c) eqn:Eg; [reflexivity|].
       exfalso. eapply (inv_reader c I); eauto.
+    + destruct (inv_present c I) as [r Ec]. rewrite Ec. destruct r; cbn; discriminate.
     + intros H. apply E. exact H.
   - unfold writer_step, Fail_explained in *.
     destruct (nth_error (writers c) i) as [w|]; [|exact E].
@@ -267,50 +486,41 @@ Proof.
     + destruct old as [[v|m]|]; cbn; auto. intros H. rewrite (E H). reflexivity.
 Qed.
 
-Lemma explained_run sched : forall c, Inv c -> Fail_explained c -> Fail_explained (run c sched).
+Lemma explained_run sched : forall c, Inv c -> Fail_explained c -> Fail_explained (run old_reader c sched).
 Proof.
   unfold run. induction sched as [|cid sched IH]; intros c I E; cbn [fold_left]; [exact E|].
-  apply IH; [|apply explained_step; auto].
-  destruct cid; [apply Inv_reader_step|apply Inv_writer_step]; exact I.
+  apply IH; [apply Inv_step, I|apply explained_step; auto].
 Qed.
 
-(* ------------------------------------------------------------------------------------------------ *)
-(* the strongest true restriction, for every schedule, any number of writers, any mix of inline and
-   file-backed values                                                                                *)
-
-Theorem continuous_presence_partial : forall file0 v0 ws sched,
-  let c := run (init file0 v0 ws) sched in
+(* for every schedule, any number of writers, any mix of inline and file-backed values *)
+Theorem continuous_presence_old_reader_partial : forall file0 v0 ws sched,
+  let c := run old_reader (init file0 v0 ws) sched in
   (* the key is present in every committed state *)
-  forallb present (trace (init file0 v0 ws) sched) = true /\
+  forallb present (trace old_reader (init file0 v0 ws) sched) = true /\
   (* a lookup that finished with KeyError overlapped a writer's removal of a value file *)
   (lookup_result c = Some None -> removed_during_lookup c = true).
 Proof.
-  intros file0 v0 ws sched c. split.
-  - assert (G : forall s c0, Inv c0 -> forallb present (trace c0 s) = true).
-    { induction s as [|cid s IH]; intros c0 I0; cbn [trace forallb].
-      - destruct (inv_present c0 I0) as [r E]. unfold present. rewrite E. reflexivity.
-      - destruct (inv_present c0 I0) as [r E]. unfold present at 1. rewrite E. cbn.
-        apply IH. destruct cid; [apply Inv_reader_step|apply Inv_writer_step]; exact I0. }
-    apply G, Inv_init.
-  - unfold lookup_result. intros H. apply (explained_run sched (init file0 v0 ws)).
-    + apply Inv_init.
-    + unfold Fail_explained. cbn. discriminate.
-    + fold c. destruct (reader c) as [| |r]; try discriminate. inversion H. reflexivity.
+  intros file0 v0 ws sched c. split; [apply present_trace, Inv_init|].
+  unfold lookup_result. intros H. apply (explained_run sched (init file0 v0 ws)).
+  - apply Inv_init.
+  - unfold Fail_explained. cbn. discriminate.
+  - fold c. destruct (reader c) as [| | |r]; try discriminate. inversion H. reflexivity.
 Qed.
 
-(* no file is ever removed when every value is inline, so such lookups always succeed *)
+(* no file is ever removed when every value is inline, so such lookups always succeeded, with the old reader too *)
 Definition all_inline (c : cfg) : Prop :=
   (forall n, committed c <> Some (InFile n)) /\
   (forall i w, nth_error (writers c) i = Some w ->
                w_file w = false /\ forall n, w_pc w <> WUpdated (Some (InFile n)) /\ w_pc w <> WCommitted (Some (InFile n))) /\
   removed_during_lookup c = false.
 
-Lemma all_inline_step c cid : all_inline c -> all_inline (step c cid).
+Lemma all_inline_step again c cid : all_inline c -> all_inline (step again c cid).
 Proof.
   intros [A1 [A2 A3]]. destruct cid as [|i]; cbn [step].
-  - unfold reader_step. destruct (reader c).
-    + destruct (committed c) as [[v|n]|] eqn:Ec; (split; [|split]); cbn; auto; try discriminate.
-    + (split; [|split]); cbn; auto.
+  - unfold reader_step, reader_select. destruct (reader c).
+    + destruct (committed c) as [[v|n]|] eqn:Ec; (split; [|split]); cbn; rewrite ?Ec; auto; try discriminate.
+    + destruct (file_get name (files c)); [|destruct (again && negb (same_missing missing name))]; (split; [|split]); cbn; auto.
+    + destruct (committed c) as [[v|n]|] eqn:Ec; (split; [|split]); cbn; rewrite ?Ec; auto; try discriminate.
     + (split; [|split]); auto.
   - unfold writer_step. destruct (nth_error (writers c) i) as [w|] eqn:Ew; [|(split; [|split]); auto].
     destruct (A2 i w Ew) as [Wf Wp].
@@ -336,25 +546,25 @@ Proof.
     + (split; [|split]); auto.
 Qed.
 
-Theorem continuous_presence_inline : forall v0 ws sched,
+Theorem continuous_presence_old_reader_inline : forall v0 ws sched,
   forallb (fun p => negb (snd p)) ws = true ->
-  lookup_result (run (init false v0 ws) sched) <> Some None.
+  lookup_result (run old_reader (init false v0 ws) sched) <> Some None.
 Proof.
   intros v0 ws sched Hw H.
-  assert (A : all_inline (run (init false v0 ws) sched)).
-  { assert (G : forall s c0, all_inline c0 -> all_inline (run c0 s)).
+  assert (A : all_inline (run old_reader (init false v0 ws) sched)).
+  { assert (G : forall s c0, all_inline c0 -> all_inline (run old_reader c0 s)).
     { unfold run. induction s as [|cid s IH]; intros c0 A0; cbn [fold_left]; auto using all_inline_step. }
     apply G. repeat split; cbn; try discriminate.
     - apply nth_error_In in H0. apply in_map_iff in H0 as [p [<- Hp]]. cbn.
       rewrite forallb_forall in Hw. specialize (Hw p Hp). destruct (snd p); [discriminate|reflexivity].
     - apply nth_error_In in H0. apply in_map_iff in H0 as [p [<- Hp]]. cbn. discriminate.
     - apply nth_error_In in H0. apply in_map_iff in H0 as [p [<- Hp]]. cbn. discriminate. }
-  destruct (continuous_presence_partial false v0 ws sched) as [_ P]. specialize (P H).
+  destruct (continuous_presence_old_reader_partial false v0 ws sched) as [_ P]. specialize (P H).
   destruct A as [_ [_ A3]]. congruence.
 Qed.
 
 (* the hypotheses are satisfiable and the conclusion is not vacuous *)
 Example inline_lookup_overlapping_replace :
-  lookup_result (run (init false 1 [(2, false)]) [0; 1; 1; 1; 1; 1; 0]%nat) = Some (Some 1) /\
-  removed_during_lookup (run witness_init witness_schedule) = true.
+  lookup_result (run old_reader (init false 1 [(2, false)]) [0; 1; 1; 1; 1; 1; 0]%nat) = Some (Some 1) /\
+  removed_during_lookup (run old_reader witness_init witness_schedule) = true.
 Proof. vm_compute. split; reflexivity. Qed.
